@@ -254,12 +254,12 @@ K("C08", "K08-f64-order", "c03_f64_to_u64_order_roundtrip", crate="tantivy-commo
 # C12  BM25 arithmetic
 # ---------------------------------------------------------------------------------------------
 K("C12", "K12-tf-range", "c12_tf_factor_range", timeout=600, title="tf_factor in [0,1], 0 exactly at tf = 0 (one f32 division)", functions=["Bm25Weight::tf_factor"], bounds="all u32 tf, cache entry in [0.3, 1e30]")
-K("C12", "K12-tf-shape", "c12_tf_factor_shape", timeout=1800, tiers="t", title="tf_factor in [0,1], 0 at tf=0, monotone in tf; score = weight * tf_factor",
+K("C12", "K12-tf-shape", "c12_tf_factor_shape", timeout=600, tiers="t", title="tf_factor in [0,1], 0 at tf=0, monotone in tf; score = weight * tf_factor",
   functions=["Bm25Weight::tf_factor", "Bm25Weight::score"], bounds="all u32 tf, cache entry in [0.3, 1e30], weight in [0, 1e6]; one symbolic cache entry at a symbolic id",
   assumes=["the cache entry is in the range cached_tf_component can produce (>= K1*(1-B), finite)"])
-K("C12", "K12-tf-antitone", "c12_tf_factor_antitone_in_norm", timeout=1800, tiers="t", title="tf_factor is antitone in the field-length norm", functions=["Bm25Weight::tf_factor"], bounds="as above")
-K("C12", "K12-cache-monotone", "c12_cached_tf_component_monotone", timeout=1800, tiers="t", title="cached_tf_component monotone in the field norm, >= K1*(1-B)", functions=["bm25::cached_tf_component"], bounds="all u32 field norms, average in [1e-3, 1e9]")
-K("C12", "K12-boost", "c12_boost_by", timeout=1800, tiers="t", title="boost_by multiplies the weight; boost 1.0 is the identity", functions=["Bm25Weight::boost_by", "score"], bounds="weights, boosts in [0, 1e6]")
+K("C12", "K12-tf-antitone", "c12_tf_factor_antitone_in_norm", timeout=600, tiers="t", title="tf_factor is antitone in the field-length norm", functions=["Bm25Weight::tf_factor"], bounds="as above")
+K("C12", "K12-cache-monotone", "c12_cached_tf_component_monotone", timeout=600, tiers="t", title="cached_tf_component monotone in the field norm, >= K1*(1-B)", functions=["bm25::cached_tf_component"], bounds="all u32 field norms, average in [1e-3, 1e9]")
+K("C12", "K12-boost", "c12_boost_by", timeout=600, tiers="t", title="boost_by multiplies the weight; boost 1.0 is the identity", functions=["Bm25Weight::boost_by", "score"], bounds="weights, boosts in [0, 1e6]")
 K("C12", "K12-idf-domain", "c12_idf_argument_domain", timeout=120, title="idf argument (N-n+0.5)/(n+0.5) is positive and finite for n <= N", functions=["bm25::idf (argument)"], bounds="N < 2^40")
 K("C12", "K12-combiners", "c12_combiners", timeout=120, title="Sum / DisjunctionMax / DoNothing combiners = their definitions", functions=["SumCombiner", "DisjunctionMaxCombiner", "DoNothingCombiner"], bounds="3 clauses, u8 scores, tie breaker in quarters")
 K("C12", "K12-fieldnorm-floor", "c07_fieldnorm_floor", timeout=120, title="field length quantisation (256 buckets) is the floor onto the table", functions=["fieldnorm_to_id", "id_to_fieldnorm"], bounds="all u32")
